@@ -468,7 +468,18 @@ func (r Rule) splitPos(path string) int {
 	if httpserver.CaseSensitivePath {
 		return strings.Index(path, r.SplitPath)
 	}
-	return strings.Index(strings.ToLower(path), strings.ToLower(r.SplitPath))
+	// The index must be one into path itself: lower-casing changes the
+	// byte length of some letters (the Kelvin sign U+212A, U+023A ...),
+	// so positions in strings.ToLower(path) are not positions in path.
+	if r.SplitPath == "" {
+		return 0
+	}
+	for i := range path {
+		if len(path)-i >= len(r.SplitPath) && strings.EqualFold(path[i:i+len(r.SplitPath)], r.SplitPath) {
+			return i
+		}
+	}
+	return -1
 }
 
 // AllowedPath checks if requestPath is not an ignored path.
